@@ -285,6 +285,25 @@ def r02_1(ctx):
             if op == "<" and b.isdigit():  # canonical spelling of `count >= N` is `!(count < N)`
                 m = re.match(r"(\d+)", b)
     ctx.ob("R02.1", "constant/noahs-ark", bool(m) and int(m.group(1)) == SPEC["noahs_ark_limit"], "Noah's Ark clause triggers at >= %s equal entries (standard: three)" % (m.group(1) if m else "?"))
+    # Noah's Ark removes the EARLIEST of the equal entries: the list is walked from its end towards the last marker, every
+    # matching entry overwrites the remembered index, so the one that is removed is the one seen last = the earliest
+    rem = 0
+    bad = None
+    for pc in nfq.feasible(cf):
+        for a, args in pc["actions"]:
+            if a == "self.active_formatting.remove":
+                matched = any(v and "equiv_modulo_attr_order" in g for g, v in pc["guards"].items())
+                if matched:
+                    rem += 1
+                    if not re.match(r"loop\(Some\(item\.0\)\)", str(args[0])):
+                        bad = "on a matching entry the remembered index is not overwritten with that entry's index (removal argument %s): a later = more recent duplicate is removed instead of the earliest" % str(args[0])[:80]
+    walk_ok = any(any(x.startswith("loop-begin for _ in self.active_formatting_end_to_marker()") for x in nfq.texts(pc)) for pc in cf)
+    try:
+        k2, vw = nfq.cells(ctx, TB, "ActiveFormattingView<'a,Handle>::iter")
+        walk_ok = walk_ok and all(re.search(r"enumerate\(\)\.rev\(\)", str(pc["ret"]) + " ".join(nfq.texts(pc))) for pc in vw)
+    except AnchorMissing:
+        walk_ok = False
+    ctx.ob("R02.1", "noahs-ark-removes-earliest", bad is None and rem >= 1 and walk_ok, bad or "the entry removed is the last one visited on the walk from the end of the list to the marker")
     n += 3
     ctx.floor("R02.1", "tables-and-constants", n, 19)
 
